@@ -193,6 +193,8 @@ theorem facCreatePair_inv {w w' : World} {s : Nat} {a0 a1 : Asset} {req : Requir
   split at h
   · cases h
   rename_i hl
+  split at h
+  · cases h
   injection h with h
   refine ⟨d0, d1, hd0, hd1, ?_, h.symm⟩
   simpa using hl
@@ -830,8 +832,8 @@ theorem regOK_step {name : Asset → String} {w w' : World} {op : Op} {out : Out
     have hr0 := regOK_same hs0 hr
     have hraw0 := rawOK_of_eq hs0.rawId hraw
     cases m with
-    | updateConfig o =>
-      have h2 : facUpdateConfig w0 s o = .ok w1 := h1
+    | updateConfig o tc pc =>
+      have h2 : facUpdateConfig w0 s o tc pc = .ok w1 := h1
       unfold facUpdateConfig at h2
       split at h2
       · cases h2
@@ -841,9 +843,11 @@ theorem regOK_step {name : Asset → String} {w w' : World} {op : Op} {out : Out
     | createPair a0 a1 req comm np nl =>
       exact regOK_createPair hr0 hraw0 (by rw [hs0.pair]; exact hfresh _ _ _ _ _ _ _ _ rfl) h1
     | addDecimals d k => exact regOK_addDecimals hr0 hraw0 h1
-    | migratePair p =>
-      have h2 : facMigratePair w0 s p = .ok w1 := h1
+    | migratePair p c =>
+      have h2 : facMigratePair w0 s p c = .ok w1 := h1
       unfold facMigratePair at h2
+      split at h2
+      · cases h2
       split at h2
       · cases h2
       split at h2
